@@ -4,6 +4,7 @@ from __future__ import annotations
 import warnings
 
 import numpy as np
+from xdsl.dialects import builtin
 from hypothesis import strategies as st
 
 from vlib import gen_c12 as G
@@ -45,6 +46,10 @@ ASSUMPTIONS = [
 ]
 
 ACC_FOR_LOCALITY = ("linalg.generic", "dart.operation")
+CASTS = ("memref.memory_space_cast", "snax.layout_cast")
+# mismatch kinds that mean "an op or the outside world saw other data than in the input program"
+DATA_KINDS = ("reads-different-data", "reads-unfilled-buffer", "argument-ends-with-different-data", "global-ends-with-different-data",
+              "returned-buffer-holds-different-data")
 
 
 # ------------------------------------------------------------------------------------------------------------------
@@ -103,6 +108,7 @@ class Case:
             for p in (["alloc-to-global"] if r.get("a2g") else []) + ["set-memory-space"]:
                 _run(self.mid, p)
             self.dom_mid = dominance_errors(self.mid)
+            self.n_root_allocs = sum(1 for op in self.mid.walk() if op.name == "memref.alloc")
             self.out = self.mid.clone()
             _run(self.out, "realize-memref-casts")
         self.dom = dominance_errors(self.out)
@@ -120,38 +126,105 @@ class Case:
                         bad.append(dict(op=op.name, tag=_tag(op), operand=k, type=str(o.type)))
         return bad
 
+    def roundtrip_operands(self):
+        """(tag, operand number) of accelerator operands that, after set-memory-space, end a cast chain that starts in L1,
+        leaves L1 and comes back to L1."""
+        out = set()
+        for op in self.mid.walk():
+            if op.name in ACC_FOR_LOCALITY:
+                for k, o in enumerate(op.operands):
+                    v, spaces = o, []
+                    while getattr(v, "op", None) is not None and v.op.name in CASTS:
+                        v = v.op.operands[0]
+                        spaces.append(memspace(v.type))
+                    if len(spaces) >= 2 and memspace(o.type) == "L1" and spaces[-1] == "L1" and any(x != "L1" for x in spaces[:-1]):
+                        out.add((_tag(op), k))
+        return out
+
     # -------------------------------------------------------------- oracle 2
+    def loop_copy_site(self):
+        """Structural feature: some cast value (after set-memory-space) has its first reading user or its last writing user
+        inside an scf.for nested below the cast's own block, and another user outside that loop."""
+        for op in self.mid.walk():
+            if op.name not in CASTS or not op.results[0].uses:
+                continue
+            blk = op.parent_block()
+            order = {o: k for k, o in enumerate(blk.walk())}
+            users = []
+            for u in op.results[0].uses:
+                uo = u.operation
+                if uo.name in CASTS or uo not in order:
+                    continue
+                top = uo
+                while top.parent_block() is not blk:
+                    top = top.parent_op()
+                if uo.name in M.ACC_OPS:
+                    nin = int(uo.properties["operandSegmentSizes"].get_values()[0])
+                    rd, wr = u.index < nin, u.index >= nin
+                elif uo.name == "func.return":
+                    rd, wr = True, False
+                else:
+                    rd, wr = True, True
+                users.append((order[uo], uo, top, rd, wr))
+            users.sort(key=lambda x: x[0])
+            rds = [x for x in users if x[3]]
+            wrs = [x for x in users if x[4]]
+            for site in ([rds[0]] if rds else []) + ([wrs[-1]] if wrs else []):
+                if site[2] is not site[1] and any(x[2] is not site[2] for x in users):
+                    return True
+        return False
+
+    def global_transformed_twice(self):
+        return any(op.name == "memref.global" and op.sym_name.data.endswith("_transformed_transformed")
+                   and not isinstance(op.initial_value, builtin.UnitAttr) for op in self.out.walk())
+
     def dataflow(self):
-        """[(kind, detail)], number of executions"""
-        mis = []
+        """([(signature, detail)], number of executions). All mismatches of all executions, one per signature."""
+        found: dict = {}
         n = 0
+        self.stats = dict(copies=0, events=0, poison=False, trips=[])
         for k in range(2):
             terms = M.Terms()
             spec = G.run_args(self.r, self.built, k)
+            trips = [a[1] for a in spec if a[0] == "int"]
             try:
                 ref = M.run(self.orig, "main", terms, spec)
             except StepBudget:
                 continue
+            mis = []
+            out = None
             try:
-                out = M.run(self.out, "main", terms, spec)
+                out = M.run(self.out, "main", terms, spec, root_allocs=self.n_root_allocs)
             except StepBudget:
                 continue
             except UseBeforeDef as e:
-                mis.append(("value-used-before-it-is-defined", dict(error=str(e)[:200], trips=spec)))
-                break
+                mis.append(("value-used-before-it-is-defined", dict(error=str(e)[:200])))
+            except M.Unsupported as e:
+                raise Outside(f"machine: {str(e)[:80]}")
             except InterpError as e:
                 mis.append(("output-program-not-executable", dict(error=str(e)[:200])))
-                break
             n += 1
-            for sig, text in out.m.problems:
-                if (sig, text) not in [(s, t) for s, t in ref.m.problems]:
-                    mis.append((sig, dict(problem=text)))
-            mis += M.compare(terms, ref, out)
-            if mis:
-                break
-            self.stats = dict(copies=out.m.ncopies, events=len(ref.m.trace),
-                              poison=any(terms.is_tainted(t) for e in ref.m.trace for rd in e[2] for t in rd))
-        return mis, n
+            if out is not None:
+                refp = set(ref.m.problems)
+                for sig, text in out.m.problems:
+                    if (sig, text) not in refp:
+                        mis.append((sig, dict(problem=text)))
+                mis += M.compare(terms, ref, out)
+                self.stats["copies"] += out.m.ncopies
+                self.stats["events"] += len(ref.m.trace)
+                self.stats["poison"] |= any(terms.is_tainted(t) for e in ref.m.trace for rd in e[2] for t in rd)
+                self.stats["trips"] += trips
+            for kind, det in mis:
+                sig = "dataflow:" + kind
+                if kind in DATA_KINDS and out is not None and out.m.clobbers:
+                    sig = "dataflow:copy-in-overwrites-what-an-earlier-writer-left-in-the-cast-buffer"
+                elif kind in DATA_KINDS and self.global_transformed_twice() and "val:" in str(det.get("expected")) and "val:" in str(det.get("got")):
+                    sig = "dataflow:initialised-global-is-re-laid-out-more-than-once"
+                elif kind in DATA_KINDS and 0 in trips and self.loop_copy_site():
+                    sig = "dataflow:copy-placed-inside-a-loop-that-runs-zero-times"
+                if sig not in found:
+                    found[sig] = dict(mismatch=det, kind=kind, trips=trips, **self.shown())
+        return list(found.items()), n
 
     # -------------------------------------------------------------- oracle 4
     def boundaries(self):
@@ -255,28 +328,32 @@ def prop_locality(r):
     c = _case(r)
     bad = c.locality()
     if bad:
-        raise Violation("locality:accelerator-operand-not-in-L1", dict(operands=bad[:4], **c.shown()))
+        rt = c.roundtrip_operands()
+        other = [b for b in bad if (b["tag"], b["operand"]) not in rt]
+        if other:
+            raise Violation("locality:accelerator-operand-not-in-L1", dict(operands=other[:4], **c.shown()))
+        raise Violation("locality:chain-returning-to-source-type-is-replaced-by-intermediate-cast", dict(operands=bad[:4], **c.shown()))
     nacc = sum(1 for op in c.out.walk() if op.name in ACC_FOR_LOCALITY)
     return Info(nontrivial=nacc >= 1 and _nontrivial_prog(c), classes=tuple(sorted(_classes(c))), sample=c.shown())
 
 
 def prop_dataflow(r):
     c = _case(r)
-    known = []
+    if c.dom_mid:
+        raise Violation("dataflow:set-memory-space-reuses-cast-that-does-not-dominate-user", dict(errors=c.dom_mid[:3], before=c.built.text, after=to_text(c.mid)))
     if c.dom:
-        raise Violation("dataflow:value-does-not-dominate-its-user", dict(errors=c.dom[:3], **c.shown()))
-    mis, n = c.dataflow()
-    if mis:
-        kind, det = mis[0]
-        raise Violation("dataflow:" + kind, dict(mismatch=det, others=[m[0] for m in mis[1:4]], **c.shown()))
-    if n == 0:
+        raise Violation("dataflow:realize-memref-casts-breaks-dominance", dict(errors=c.dom[:3], **c.shown()))
+    found, n = c.dataflow()
+    if n == 0 and not found:
         raise Outside("all executions exceeded the step budget")
     cls = _classes(c)
     s = getattr(c, "stats", {})
     if s.get("poison"):
         cls.add("reads-unwritten-alloc")
     cls.add("copies:" + ("0" if not s.get("copies") else "1-3" if s["copies"] <= 3 else "4+"))
-    return Info(nontrivial=_nontrivial_prog(c) and bool(s.get("events")), classes=tuple(sorted(cls)), sample=c.shown(), evals=n, known=known)
+    for t in s.get("trips", ()):
+        cls.add("trips:" + ("0" if t == 0 else "1" if t == 1 else "2+"))
+    return Info(nontrivial=_nontrivial_prog(c) and bool(s.get("events")) and not found, classes=tuple(sorted(cls)), sample=c.shown(), evals=max(n, 1), known=found)
 
 
 def prop_boundaries(r):
